@@ -169,3 +169,16 @@ _add(
         min_arms=9,
     )
 )
+
+# --- substitution reaches the types recorded in the type-checker environment (identifiers, functions, ans/_)
+_add(
+    Family(
+        "apply_substitution_env",
+        functions=["<crate::typechecker::environment::Environment as crate::typechecker::substitutions::ApplySubstitution>::apply"],
+        enums=["crate::typechecker::environment::IdentifierKind"],
+        payload=[TS, TYPE],
+        structs=["crate::typechecker::environment::FunctionSignature"],
+        visit=[r"ApplySubstitution>?::apply$"],
+        min_arms=3,
+    )
+)
